@@ -5,8 +5,44 @@ from vlib import runner
 from checks import exec_common, exec_findings
 
 
+def map_vectors(ctx):
+    """MapChunks.tla: TLC checks the chunking law and emits one vector per (lengths, chunksize); the real helper
+    pipeline is run on each."""
+    import json, os
+    from vlib import tlc
+    tlc.sany(ctx.work, "MC_MapChunks")
+    cfg = "MC_MapChunks_%s.cfg" % ("thorough" if ctx.tier == "thorough" else "quick")
+    res = tlc.check(ctx.work, "MC_MapChunks", cfg, workers=4, timeout=900, coverage=False)
+    ctx.add_tlc(res, "MapChunks.tla (%s)" % cfg)
+    if res.violation:
+        raise runner.Machinery("MapChunks.tla: %s" % (res.violation,))
+    vecs = [json.loads(json.loads(l)) for l in res.out.splitlines() if l.startswith('"[\\"VEC')]
+    if not vecs:
+        raise runner.Machinery("MapChunks.tla emitted no vector")
+    vf, of = os.path.join(ctx.work, "map_vecs.jsonl"), os.path.join(ctx.work, "map_out.json")
+    with open(vf, "w") as fh:
+        for v in vecs:
+            fh.write(json.dumps(v) + "\n")
+    rc, out = runner.run_child([runner.PY, os.path.join(runner.ROOT, "engine/pure/map_child.py"), vf, of], timeout=600)
+    if rc != 0 or not os.path.exists(of):
+        raise runner.Machinery("map_child failed: %s" % out[-800:])
+    r = json.load(open(of))
+    if r["n"] != len(vecs):
+        raise runner.Machinery("map_child processed %d of %d" % (r["n"], len(vecs)))
+    for v in vecs:
+        ctx.case(key="map:%s" % json.dumps(v[1:3]), nontrivial=len(v[1]) > 1 or v[2] > 1)
+    ctx.traces_validated += len(vecs) - len(r["out"])
+    ctx.extra["map_vectors"] = len(vecs)
+    for m in r["out"][:3]:
+        ctx.violation("C03 map clause: iterables of lengths %s with chunksize=%d: %s" % (m["lens"], m["chunksize"], m["why"]),
+                      dict(engine="E-PURE", vector=m, how="engine/pure/map_child.py"), signature=dict(kind="map_vector"))
+
+
 def run(ctx):
-    exec_common.run_property(ctx, "C03", ['mixed', 'timeout', 'crash'], 300, 3000, classify=exec_findings.classify)
+    from vlib import tlc
+    tlc.stage(ctx.work)
+    map_vectors(ctx)
+    exec_common.run_property(ctx, "C03", ['mixed', 'timeout', 'crash', 'map'], 300, 3000, classify=exec_findings.classify)
 
 
 if __name__ == "__main__":
